@@ -2,8 +2,10 @@ package sdkapi
 
 import (
 	"bytes"
+	"encoding/json"
 	"fmt"
 	"math"
+	"net"
 	"reflect"
 	"strings"
 	"time"
@@ -78,7 +80,56 @@ var c22Kinds = []string{"string", "bool", "int8", "int16", "int32", "int64", "in
 
 var timeType = reflect.TypeOf(time.Time{})
 
+// Named types: the same underlying kinds under a defined type name (standard-library ones and local ones).
+type (
+	C22Blob  []byte
+	C22Label string
+	C22Level int8
+	C22Score float64
+	C22Flag  bool
+	C22Tags  []string
+	C22Attrs map[string]int64
+)
+
+type c22Named struct {
+	base string // underlying kind of c22Kinds ("ptr:" + kind = pointer to the named type)
+	typ  reflect.Type
+}
+
+var c22NamedKinds = map[string]c22Named{
+	"n-rawmessage": {"bytes", reflect.TypeOf(json.RawMessage(nil))},
+	"n-ip":         {"bytes", reflect.TypeOf(net.IP(nil))},
+	"n-blob":       {"bytes", reflect.TypeOf(C22Blob(nil))},
+	"n-label":      {"string", reflect.TypeOf(C22Label(""))},
+	"n-level":      {"int8", reflect.TypeOf(C22Level(0))},
+	"n-duration":   {"int64", reflect.TypeOf(time.Duration(0))},
+	"n-score":      {"float64", reflect.TypeOf(C22Score(0))},
+	"n-flag":       {"bool", reflect.TypeOf(C22Flag(false))},
+	"n-tags":       {"strslice", reflect.TypeOf(C22Tags(nil))},
+	"n-attrs":      {"i64map", reflect.TypeOf(C22Attrs(nil))},
+	"p-label":      {"ptr:string", reflect.TypeOf((*C22Label)(nil))},
+	"p-level":      {"ptr:int8", reflect.TypeOf((*C22Level)(nil))},
+	"p-duration":   {"ptr:int64", reflect.TypeOf((*time.Duration)(nil))},
+}
+
+var c22NamedKindList = []string{"n-rawmessage", "n-ip", "n-blob", "n-label", "n-level", "n-duration", "n-score", "n-flag", "n-tags", "n-attrs", "p-label", "p-level", "p-duration"}
+
+// c22Base returns the underlying kind used for value generation and for the emptiness / void rules
+// ("ptrinner" stands for every pointer kind: nil or not).
+func c22Base(kind string) string {
+	if n, ok := c22NamedKinds[kind]; ok {
+		if strings.HasPrefix(n.base, "ptr:") {
+			return "ptrinner"
+		}
+		return n.base
+	}
+	return kind
+}
+
 func c22GoType(kind string) reflect.Type {
+	if n, ok := c22NamedKinds[kind]; ok {
+		return n.typ
+	}
 	switch kind {
 	case "string":
 		return reflect.TypeOf("")
@@ -139,6 +190,18 @@ func (v C22Val) time() time.Time {
 
 // c22GoValue builds the Go value of a kind.
 func c22GoValue(kind string, v C22Val) reflect.Value {
+	if n, ok := c22NamedKinds[kind]; ok {
+		if strings.HasPrefix(n.base, "ptr:") {
+			out := reflect.New(n.typ).Elem()
+			if !v.Nil {
+				p := reflect.New(n.typ.Elem())
+				p.Elem().Set(c22GoValue(n.base[4:], v).Convert(n.typ.Elem()))
+				out.Set(p)
+			}
+			return out
+		}
+		return c22GoValue(n.base, v).Convert(n.typ)
+	}
 	t := c22GoType(kind)
 	out := reflect.New(t).Elem()
 	switch kind {
@@ -459,6 +522,23 @@ func genC22Str(t *rapid.T, label string) string {
 }
 
 func genC22Val(t *rapid.T, kind, label string) C22Val {
+	if n, ok := c22NamedKinds[kind]; ok {
+		if strings.HasPrefix(n.base, "ptr:") {
+			if rapid.IntRange(0, 3).Draw(t, label+"pnil") == 0 {
+				return C22Val{Nil: true}
+			}
+			return genC22Val(t, n.base[4:], label)
+		}
+		v := genC22Val(t, n.base, label)
+		if kind == "n-ip" && !v.Nil {
+			// net.IP is a text marshaler (msgpack/gob store its textual form): use the 16-byte form of a
+			// non-IPv4 address, which that form reproduces byte for byte
+			ip := append([]byte{0x20, 0x01, 0x0d, 0xb8}, make([]byte, 12)...)
+			copy(ip[4:], v.Y)
+			v.Y, v.Empty = ip, false
+		}
+		return v
+	}
 	var v C22Val
 	zero := rapid.IntRange(0, 4).Draw(t, label+"zero") == 0
 	switch kind {
@@ -603,7 +683,10 @@ func (f C22Field) writesVoid(second bool) bool {
 	if v.isEmpty(f.Kind) && (f.Omit || f.Del) {
 		return true
 	}
-	switch f.Kind {
+	if c22Base(f.Kind) == "ptrinner" && f.Kind != "ptrinner" {
+		return v.Nil
+	}
+	switch c22Base(f.Kind) {
 	case "ptrinner":
 		return v.Nil || v.In == nil
 	case "time":
@@ -651,7 +734,10 @@ func c22NilBodyField(f C22Field) bool {
 	if f.Omit {
 		return false
 	}
-	switch f.Kind {
+	if c22Base(f.Kind) == "ptrinner" && f.Kind != "ptrinner" {
+		return f.V.Nil || f.V2.Nil
+	}
+	switch c22Base(f.Kind) {
 	case "bytes", "strslice", "i64slice", "u32slice", "strmap", "i64map":
 		return f.V.Nil || f.V2.Nil
 	case "ptrinner":
